@@ -19,9 +19,9 @@ struct St
   int limit;           // what the bound is checked against during a loop
   int nloops;
 } st;
-enum { P_BOUND_ATTAINED = 0, P_REINIT, P_NONPOSITIVE_FIRST, P_QUERY_BEFORE_INIT, P_N_ABOVE_CORES, P_PARALLEL_GE2, P_NESTED, P_LARGE_N, P_AFFINITY };
+enum { P_BOUND_ATTAINED = 0, P_REINIT, P_NONPOSITIVE_FIRST, P_QUERY_BEFORE_INIT, P_N_ABOVE_CORES, P_PARALLEL_GE2, P_NESTED, P_LARGE_N, P_AFFINITY, P_HOP };
 const char *probe_names[] = {"thread_bound_attained", "reinitialised_with_other_n", "first_init_nonpositive", "queried_before_init",
-                             "n_above_core_count", "two_or_more_bodies_simultaneously", "nested_loop_planned", "init_with_16_to_129_threads", "affinity_mask_smaller_than_online_cpus", nullptr};
+                             "n_above_core_count", "two_or_more_bodies_simultaneously", "nested_loop_planned", "init_with_16_to_129_threads", "affinity_mask_smaller_than_online_cpus", "operations_carried_out_by_helper_threads", nullptr};
 const char *no_faults[] = {nullptr};
 
 void reset()
@@ -77,6 +77,17 @@ void do_plan(int tier)
         sim_probe(P_NESTED);
     }
   }
+  // which thread of the application performs an operation: on the internal back end only queries move (enkiTS allows loops
+  // from the initialising thread and from inside tasks only)
+  plan.hop_mask = 0;
+  if (sim_plan(3) == 0) {
+    unsigned m = sim_plan(1u << 10);
+    for (int i = 0; i < plan.nops; i++)
+      if ((m >> i & 1) && (rksim_lane_bit() != LANE_INTERNAL || plan.ops[i].kind == C13_QUERY))
+        plan.hop_mask |= 1u << i;
+    if (plan.hop_mask)
+      sim_probe(P_HOP);
+  }
   sim_set_step_cap(large ? 8000000 : 1500000);
 }
 void check() {}
@@ -90,7 +101,7 @@ int stuck(int deadlock, char *cls, size_t n)
 }
 void describe(char *buf, size_t n)
 {
-  int k = snprintf(buf, n, "{\"cores\": %d, \"cpus_in_affinity_mask\": %d, \"history\": [", plan.cores, plan.affinity ? plan.affinity : plan.cores);
+  int k = snprintf(buf, n, "{\"cores\": %d, \"cpus_in_affinity_mask\": %d, \"operations_on_helper_threads_mask\": %u, \"history\": [", plan.cores, plan.affinity ? plan.affinity : plan.cores, plan.hop_mask);
   for (int i = 0; i < plan.nops && k < (int)n - 80; i++) {
     const C13Op &op = plan.ops[i];
     if (op.kind == C13_INIT)
@@ -164,6 +175,10 @@ void c13_loop_begin(int count)
   // whatever the system reports
   int exp = expected_limit();
   st.limit = exp > 0 ? exp : (st.reported > 0 ? st.reported : 0);
+  // the default of an initialisation with n <= 0 is only required to be positive; a back end may derive it per calling
+  // thread, so what one thread was told does not bound a loop another thread starts
+  if (exp <= 0 && plan.hop_mask)
+    st.limit = 0;
 }
 void c13_loop_end()
 {
